@@ -174,7 +174,15 @@ func vC13(nops int) {
 	perm.writes = 0
 	view := &BackedMemDb{inner: &vMem{}, permanent: perm, touched: mapset.NewSet()}
 	for i := 0; i < nops; i++ {
-		switch vChoice("op", 6) {
+		var op int
+		if nops >= 3 && i < nops-1 {
+			// three operations: two direct mutations (set, delete) followed by any operation - the full cube of
+			// six operation kinds with all their parameters does not fit the path budget
+			op = []int{1, 2}[vChoice("mutation", 2)]
+		} else {
+			op = vChoice("op", 6)
+		}
+		switch op {
 		case 0:
 			vCover("get")
 			k := vKey("get.key")
@@ -261,5 +269,5 @@ func vC13(nops int) {
 // against the reference "ordinary ordered store pre-loaded with the base", operation by operation.
 func H_C13a() { vC13(2) }
 
-//verif:obligation C13.b tier=thorough bounds=as-C13.a-with-3-operations covers=get,set,delete,iterate,reverse,batch,batchDiscarded
+//verif:obligation C13.b tier=thorough bounds=as-C13.a-with-3-operations:two-mutations(set|delete)-then-any-operation covers=get,set,delete,iterate,reverse,batch,batchDiscarded
 func H_C13b() { vC13(3) }
